@@ -8,4 +8,7 @@ ASSUME \A x \in {0,5,255,256,70000,9999999} : \A d \in {1,3,10,58,256,1000} : LE
 ASSUME Dec(FromBE(<<255,255,255,255,255,255,255,255>>)) = <<49,56,52,52,54,55,52,52,48,55,51,55,48,57,53,53,49,54,49,53>>
 ASSUME FromDec(Dec(U64Max)) = U64Max /\ Dec(FromSmall(1000000)) = <<49,48,48,48,48,48,48>> /\ Dec(Zero) = <<48>> /\ Dec(FromSmall(999999)) = <<57,57,57,57,57,57>>
 ASSUME \A x \in {0, 7, 123456, 1234567, 100000000} : V(FromDec(Dec(FromSmall(x)))) = x
+ASSUME \A x \in {0, 5, 255, 256, 70000, 9999999, 123456789} : \A d \in {1, 3, 255, 256, 257, 65536, 10000000, 123456790} :
+          LET qr == DivMod(FromSmall(x), FromSmall(d)) IN V(qr[1]) = x \div d /\ V(qr[2]) = x % d
+ASSUME DivMod(Mul(U64Max, U64Max), U64Max) = <<U64Max, Zero>> /\ CeilDiv(Add(Mul(U64Max, U64Max), One), U64Max) = P64 /\ FloorDiv(FromSmall(7), FromSmall(8)) = Zero
 ====
